@@ -14,7 +14,8 @@ RULE = ('iff/xor-free typed grammar whose leaves are predicates (no bare numeric
         'operators; discrete online: past operators; dense lanes on the grid). (a) sign lane: for every t, rho(t) > 0 => the independent '
         'Boolean evaluator says satisfied, rho(t) < 0 => violated, rho taken from the monitor. (b) lipschitz lanes (discrete and dense, offline and online): every predicate is '
         '"var cmp const"; a perturbation delta with |delta| <= 0.99*|rho(t)| per sample (dyadic, <= 1e3 if rho is infinite) is drawn and '
-        'the Boolean verdict of the perturbed trace at t must equal that of the original. Non-trivial = 0 < |rho(t)| < inf at a checked '
+        'the Boolean verdict of the perturbed trace at t must equal that of the original. Lanes sign_huge_on/off: samples of magnitude up to 3e200 under products, exp and even/odd powers '
+        '(results leave the float range): the reference takes an overflowing power as the correctly signed infinity, a monitor that raises OverflowError is a data fault (discarded), a monitor that answers is judged by the sign; inf - inf (NaN) is outside the domain. Non-trivial = 0 < |rho(t)| < inf at a checked '
         't and the formula has a negation/implication above a temporal operator or >= 2 temporal operators; distinct = distinct '
         '(formula, trace, kind[, perturbation]) digests.')
 
@@ -273,6 +274,69 @@ def check_dense_lip(case):
     return PASS(0 < abs(r) < float('inf') and F.n_temporal(f) >= 1, labels)
 
 
+HUGE = [1e60, -1e60, 1e100, -1e100, 2e120, -2e120, 1e100, -1e100, 1e155, -1e155, 3e200, -3e200, 1.0, -2.0, 0.5, 3.0, 1e-200, -1e-160, 0.0, 7.0, -1e3]
+
+
+@st.composite
+def huge_cases(draw, tier, kind):
+    """Samples of very large magnitude under products and odd / even powers: results leave the float range."""
+    vs = ['x', 'y']
+
+    def term(d):
+        k = draw(st.integers(0, 6)) if d > 0 else 0
+        if k <= 1:
+            return ('var', draw(st.sampled_from(vs))) if draw(st.integers(0, 5)) else ('const', draw(st.sampled_from([-8.0, 0.0, 1.0, 1e150])))
+        if k == 2:
+            return ('bin', 'pow', ('var', draw(st.sampled_from(vs))), ('const', draw(st.sampled_from([2.0, 2.0, 3.0, 3.0, 5.0]))))
+        if k == 3:
+            return ('bin', '*', term(d - 1), term(d - 1))
+        if k == 4:
+            return ('bin', draw(st.sampled_from(['+', '-'])), term(d - 1), term(d - 1))
+        if k == 5:
+            return ('un', draw(st.sampled_from(['abs', 'neg'])), term(d - 1))
+        return ('un', 'exp', ('var', draw(st.sampled_from(vs)))) if draw(st.booleans()) else ('var', draw(st.sampled_from(vs)))
+
+    def pred():
+        return ('pred', draw(st.sampled_from(['>=', '<=', '>', '<'])), term(2), term(1) if draw(st.booleans()) else ('const', draw(st.sampled_from([-8.0, 0.0, 1.0]))))
+    past = ['once', 'historically']
+    ops = past + (['eventually', 'always'] if kind == 'dt_off' else [])
+    shape = draw(st.integers(0, 4))
+    g = pred()
+    if shape == 1:
+        g = ('un', 'not', g)
+    elif shape == 2:
+        g = ('bin', draw(st.sampled_from(['and', 'or', 'implies'])), g, pred())
+    elif shape == 3:
+        g = ('un', draw(st.sampled_from(ops)), g)
+    elif shape == 4:
+        g = ('tun', draw(st.sampled_from(ops)), 0, draw(st.integers(0, 2)), ('un', 'not', g))
+    n = draw(st.integers(1, 6))
+    tr = {v: draw(st.lists(st.sampled_from(HUGE), min_size=n, max_size=n)) for v in vs}
+    return {'formula': g, 'vars': vs, 'trace': tr, 'kind': kind}
+
+
+def check_huge(case):
+    from .. import refsem
+    refsem.SATURATE = True
+    try:
+        # inf - inf inside a predicate is NaN: outside the domain (as in every other lane, where the typed grammar avoids it)
+        f = from_json(case['formula'])
+        used = [v_ for v_ in case['vars'] if v_ in F.fvars(f)]
+        if used:
+            w = {v_: [float(x) for x in case['trace'][v_]] for v_ in used}
+            try:
+                refsem.dt(f, w, len(w[used[0]]))
+            except (Undefined, NotNumeric):
+                return DISCARD('nan-or-undefined-in-reference', ['kind:' + case['kind'], 'huge'])
+        v = check(case)
+    finally:
+        refsem.SATURATE = False
+    if v.status == 'pass':
+        f = from_json(case['formula'])
+        v.nontrivial = any(s[0] == 'bin' and s[1] in ('pow', '*') for s in F.subterms(f)) or any(s[0] == 'un' and s[1] == 'exp' for s in F.subterms(f))
+    return v
+
+
 @st.composite
 def verylong_cases(draw, tier, kind):
     """Windows of 33..48 (sometimes 63..129) samples on traces of 50..170 samples with few distinct values (exact ties inside one window)."""
@@ -292,6 +356,8 @@ def verylong_cases(draw, tier, kind):
 
 
 LANES = [
+    Lane('sign_huge_on', lambda tier: huge_cases(tier, 'dt_on'), check_huge, 1500, 20000, candidates),
+    Lane('sign_huge_off', lambda tier: huge_cases(tier, 'dt_off'), check_huge, 1000, 15000, candidates),
     Lane('sign_verylong_on', lambda tier: verylong_cases(tier, 'dt_on'), check, 120, 1500, candidates),
     Lane('sign_verylong_off', lambda tier: verylong_cases(tier, 'dt_off'), check, 80, 1000, candidates),
     Lane('lip_ct_off', lambda tier: dense_lip_cases(tier, 'ct_off'), check_dense_lip, 1500, 20000, ct_candidates),
